@@ -29,6 +29,38 @@ var leafCache = map[string]*typeInfo{}
 var leafMu sync.Mutex
 
 func typeKey(t types.Type) string {
+	t = types.Unalias(t)
+	switch u := t.(type) {
+	case *types.Basic:
+		switch u.Kind() {
+		case types.Uint8:
+			return "uint8"
+		case types.Int32:
+			return "int32"
+		case types.UntypedInt:
+			return "int"
+		case types.UntypedFloat:
+			return "float64"
+		case types.UntypedBool:
+			return "bool"
+		case types.UntypedString:
+			return "string"
+		case types.UntypedRune:
+			return "int32"
+		}
+		return u.Name()
+	case *types.Pointer:
+		return "*" + typeKey(u.Elem())
+	case *types.Slice:
+		return "[]" + typeKey(u.Elem())
+	case *types.Array:
+		return fmt.Sprintf("[%d]%s", u.Len(), typeKey(u.Elem()))
+	case *types.Named:
+		if u.Obj().Pkg() != nil {
+			return u.Obj().Pkg().Name() + "." + u.Obj().Name()
+		}
+		return u.Obj().Name()
+	}
 	return types.TypeString(t, func(p *types.Package) string { return p.Name() })
 }
 
